@@ -488,6 +488,11 @@ CATALOGUE['C20'] += [
 ]
 
 
+CATALOGUE['C12'] += [
+  (F, 'R-REFSHIFT', _F, "                            refcdate - crefdate).total_seconds() / yearseconds", "                            crefdate - refcdate).total_seconds() / yearseconds"),
+  (S, None, _F, "                        addyears = (\n                            refcdate - crefdate).total_seconds() / yearseconds", "                        refoffset = refcdate - crefdate\n                        addyears = refoffset.total_seconds() / yearseconds"),
+]
+
 def _findings(prop, overlay):
     warnings.simplefilter('ignore')
     mod = importlib.import_module('pncstatic.rules.%s' % prop.lower())
